@@ -264,7 +264,10 @@ DrNext(w) ==
     /\ UNCHANGED <<st, SIDE, Q, root, ip, ev, RUN, ref, pred, GH>>
 OwnedAtExit(w) == [ib |-> (lv[w].mode = "IB"), w |-> IF lv[w].mode = "IB" THEN W ELSE lv[w].ow,
                    enq |-> lv[w].owned.enq,
-                   res |-> (lv[w].dc # NULL /\ W > 1 /\ IsBarrier(lv[w].dc))]
+                   \* _dispatch_queue_adjust_owned: reserve the pending barrier unless this drainer already did in
+                   \* try_upgrade_full_width (finding F3: the pinned code reserved twice after a failed unlock)
+                   res |-> (lv[w].dc # NULL /\ W > 1 /\ IsBarrier(lv[w].dc)
+                            /\ (~st.pb \/ Mut = "double_pending_barrier_reservation"))]
 \* _dispatch_queue_drain_try_unlock(dq, owned, done = TRUE)
 Unlock(w) ==
     /\ pc[w] = "unlock"
@@ -497,7 +500,7 @@ NoStrand == (Quiescent /\ AllSubmitted /\ ~Suspended(st)) =>
                (done = Items /\ IdleModQos(st) /\ tail = NULL /\ head = NULL /\ ref = 0)
 \* C01: the asynchronous forms never wait for another thread: inside an async submission some step is always enabled
 AsyncPcs == {"cpush_tail", "cpush_acq", "push_tail", "push_ovr", "push_prev", "wk_probe", "wk_rmw", "wk_release"}
-AsyncNeverBlocks == \A c \in Clients : (pc[c] \in AsyncPcs /\ ~IsWaiter(lv[c].item)) => ENABLED Step(c)
+AsyncNeverBlocks == \A c \in Clients : (pc[c] \in AsyncPcs /\ lv[c].item # NULL /\ ~IsWaiter(lv[c].item)) => ENABLED Step(c)
 \* C02 / C04: barrier items (all items of a serial lane) overlap nothing
 BarrierExcl == \A i \in running : IsBarrier(i) => running = {i}
 \* C02 FIFO / C04 ordering: if a's submission returned before b's began and one of them is a barrier, a is done when b starts
